@@ -309,6 +309,13 @@ def gen_kwargs(W, rng, form, tr, te):
             out.append(('kw-field', {n: rng.choice([W.H, W.B, W.F, W.H + W.B])}))
         else:
             out.append(('kw-field', {n: rng.choice([W.w, W.g, W.f, W.u, W.v, W.w * W.p, W.f + 1])}))
+        # a value that is falsy in Python is a value like any other (seeded change C10-7 skipped `if not v`)
+        if rng.random() < 0.5:
+            n0 = rng.choice(names)
+            if isinstance(free[n0], m['Constant']):
+                out.append(('kw-zero', {n0: rng.choice([0, m['Rational'](0)])}))
+            elif isinstance(free[n0], m['ScalarFunction']) and len(names) >= 2:
+                out.append(('kw-zero', {n0: rng.choice([0, m['Rational'](0)])}))
         fields = [x for x in names if isinstance(free[x], m['ScalarFunction'])]
         if len(fields) >= 2:
             a, b = rng.sample(fields, 2)
@@ -468,7 +475,8 @@ def check_call(o, W, form, tr, te, pos, kw, label, bilinear, m):
         return key, '%s = %s, the simultaneous replacement gives %s (form %s)' % (desc, str(r[1])[:300], str(want)[:300], str(form.expr)[:200]), \
             dict(form=str(form.expr), call=desc, got=str(r[1]), want=str(want))
     # nothing else: domains kept, untouched atoms still there when they were not replaced
-    if sorted(d for d, _ in got_i) != sorted(d for d, _ in int_list(form.expr, m)) and all(e != 0 for _, e in want_i):
+    if sorted(d for d, _ in got_i) != sorted(d for d, _ in int_list(form.expr, m)) and all(e != 0 for _, e in want_i) \
+            and not any(v == 0 for v in kw.values()):      # an integral whose integrand became 0 is dropped: no domain is kept for it
         return 'domains:' + key, '%s changes the integration domains: %s -> %s' % (desc, [d for d, _ in int_list(form.expr, m)], [d for d, _ in got_i]), dict(form=str(form.expr), call=desc)
     o.count('call-ok:' + label)
     return None
